@@ -276,7 +276,7 @@ def _gen_table(rd, shape) -> Dict[str, Any]:
     return {"cols": cols}
 
 
-def _gen_steps(r, cols: Dict[str, str], belief, depth=0, allow_join=True):
+def _gen_steps(r, cols: Dict[str, str], belief, depth=0, allow_join=True, only=None):
     """cols: name -> 'i'|'s' (believed). returns (steps, resulting cols)"""
     steps = []
     cols = dict(cols)
@@ -284,8 +284,8 @@ def _gen_steps(r, cols: Dict[str, str], belief, depth=0, allow_join=True):
         ints = sorted(c for c, t in cols.items() if t == "i")
         strs = sorted(c for c, t in cols.items() if t == "s")
         names = sorted(cols)
-        kind = r.choice(["extend", "extend", "select_rows", "select_columns", "drop_columns", "rename", "project",
-                         "join", "selfjoin", "concat_self"])
+        kind = r.choice(only or ["extend", "extend", "select_rows", "select_columns", "drop_columns", "rename", "project",
+                                 "join", "selfjoin", "concat_self"])
         if kind == "extend" and ints:
             new = r.choice([c for c in ["x", "y", "z", "w", "v", "u"] if c not in cols] or ["q9"])
             if new in cols:
@@ -357,7 +357,7 @@ def _gen_steps(r, cols: Dict[str, str], belief, depth=0, allow_join=True):
             for c in list(cols):
                 if c not in on:
                     cols[c + "_r"] = cols[c]
-        elif kind == "concat_self" and depth == 0 and r.random() < 0.5:
+        elif kind == "concat_self" and depth == 0 and (only or r.random() < 0.5):
             steps.append({"t": "concat_self"})
     return steps, cols
 
@@ -408,7 +408,7 @@ def generate(run_seed: int, cfg: Dict[str, Any]) -> Dict[str, Any]:
                 bk = op["key"]
             if not (op["ow"] is False and bk in belief):
                 belief[bk] = tcols
-                history_belief.append((bk, tcols, i))
+                history_belief.append((bk, tcols, len(ops)))
         elif kind == "execute":
             # source: usually a current belief, sometimes a stale description obtained earlier
             if r.random() < 0.25 or not belief:
@@ -420,10 +420,34 @@ def generate(run_seed: int, cfg: Dict[str, Any]) -> Dict[str, Any]:
                 h = hs[-1] if hs else None
             use_handle = r.random() < 0.6
             steps, rc = _gen_steps(r, scols, belief)
+            earlier = [o for o in ops if o["op"] == "execute"]
+            if earlier and r.random() < 0.12:
+                # motif: an input of an earlier pipeline is replaced by an execute (r := f(r)), then that pipeline runs again
+                again = r.choice(earlier)
+                k_in = again["pipe"]["src"]["key"]
+                if k_in in belief:
+                    # column-preserving, so that the earlier pipeline's description still fits the replaced table
+                    qsteps, qrc = _gen_steps(r, belief[k_in], belief, allow_join=False, only=["select_rows", "concat_self", "select_rows"])
+                    if not qsteps:
+                        qsteps = [{"t": "concat_self"}]
+                    ops.append({"op": "execute", "client": client, "key": k_in, "ow": True, "id": len(ops),
+                                "pipe": {"src": {"h": None, "key": k_in, "cols": sorted(belief[k_in])}, "steps": qsteps},
+                                "_scols": dict(belief[k_in]), "_rc": dict(qrc)})
+                    belief[k_in] = qrc
+                    history_belief.append((k_in, qrc, len(ops) - 1))
+            if earlier and r.random() < 0.3:
+                # the same pipeline again (a client re-running its query after the inputs may have changed)
+                again = r.choice(earlier)
+                sk, scols = again["pipe"]["src"]["key"], {c: "i" for c in again["pipe"]["src"]["cols"]}
+                scols = again.get("_scols", scols)
+                h = again["pipe"]["src"].get("h")
+                use_handle = h is not None
+                steps, rc = _copy.deepcopy(again["pipe"]["steps"]), dict(again.get("_rc", rc))
             auto = r.random() < auto_rate
             op["key"] = None if auto else (sk if r.random() < 0.2 else r.choice(alphabet))
             op["ow"] = r.choice([None, False, True, True])
             op["pipe"] = {"src": {"h": h if use_handle else None, "key": sk, "cols": sorted(scols)}, "steps": steps}
+            op["_scols"], op["_rc"] = dict(scols), dict(rc)
             if auto:
                 n_auto += 1
                 bk = f"da_temp_{n_auto}"
@@ -431,16 +455,19 @@ def generate(run_seed: int, cfg: Dict[str, Any]) -> Dict[str, Any]:
                 bk = op["key"]
             if not (op["ow"] in (None, False) and bk in belief):
                 belief[bk] = rc
-                history_belief.append((bk, rc, i))
+                history_belief.append((bk, rc, len(ops)))
         elif kind == "remove":
             op["key"] = r.choice(alphabet) if (r.random() < 0.3 or not belief) else r.choice(sorted(belief))
             belief.pop(op["key"], None)
         elif kind in ("retrieve", "describe"):
             op["key"] = r.choice(alphabet) if (r.random() < 0.3 or not belief) else r.choice(sorted(belief))
             if kind == "describe" and op["key"] in belief:
-                history_belief.append((op["key"], belief[op["key"]], i))
-        op["id"] = i
+                history_belief.append((op["key"], belief[op["key"]], len(ops)))
+        op["id"] = len(ops)
         ops.append(op)
+    for o in ops:
+        o.pop("_scols", None)
+        o.pop("_rc", None)
     # epilogue (always fault-free): every key of the alphabet is inserted with allow_overwrite=False - must succeed
     # exactly for the keys that are absent - then read back
     for k in KEYS:
